@@ -214,6 +214,12 @@ fn real_group_law<C: RealCurve>(ctx: &Ctx, rv: &RealV<C>) {
             if C::pt_of_aff(&n) != c.neg(rp) {
                 return Err(Fail::new(format!("{}: affine negate wrong", name)));
             }
+            // equality of affine values: -P == -P obtained through the projective type; in particular -O == O
+            let mut np = a.into_projective();
+            np.negate();
+            if n != np.into_affine() || (rp.is_inf() && n != *a) {
+                return Err(Fail::new(format!("{}: the negation of an affine point does not compare equal (==) to the same point obtained by projective negation and conversion", name)));
+            }
             let p = a.into_projective();
             if &C::pt_of(&p) != rp || p.into_affine() != *a {
                 return Err(Fail::new(format!("{}: affine <-> projective conversion wrong", name)));
